@@ -46,6 +46,7 @@ type KnownFinding struct {
 	Status   string   `json:"status"`
 	Commit   string   `json:"commit"`
 	What     string   `json:"what"`
+	AlsoIn   []string `json:"also_in"` // other properties whose checks include the same harness
 }
 
 type KnownFile struct {
@@ -227,8 +228,19 @@ func firstLine(s string) string {
 func matchKnown(k KnownFile, id, harness string, v *Violation) *KnownFinding {
 	for i := range k.Findings {
 		f := &k.Findings[i]
-		if f.Status != "open" || f.Property != id {
+		if f.Status != "open" {
 			continue
+		}
+		if f.Property != id {
+			also := false
+			for _, a := range f.AlsoIn {
+				if a == id {
+					also = true
+				}
+			}
+			if !also {
+				continue
+			}
 		}
 		if f.Harness != "" && f.Harness != harness {
 			continue
